@@ -87,10 +87,14 @@ func (w *pointByteWriter) WriteByte(c byte) error {
 type pointReader struct {
 	r     *bytes.Reader
 	point func()
+	frag  int // > 0: at most frag bytes per Read (headers arrive in pieces)
 }
 
 func (s *pointReader) Read(p []byte) (int, error) {
 	s.point()
+	if s.frag > 0 && len(p) > s.frag {
+		p = p[:s.frag]
+	}
 	n, err := s.r.Read(p)
 	if len(p) > 1 {
 		// bulk reads go through staging buffers: the moment between "the source has filled the
@@ -242,6 +246,29 @@ func c14LZMA2Reader(stream []byte) c14Body {
 	}}
 }
 
+// c14LZMAReader: a classic .lzma reader on a source that delivers at most three bytes per Read (the
+// 13-byte header arrives in five pieces, with a scheduling point before and after each).
+func c14LZMAReader(stream []byte) c14Body {
+	return c14Body{kind: "lzmaR", run: func(point func()) []byte {
+		src := &pointReader{r: bytes.NewReader(stream), point: point, frag: 3}
+		point()
+		rd, err := lzma.ReaderConfig{DictCap: 4096}.NewReader(src)
+		if err != nil {
+			return []byte("ctor:" + err.Error())
+		}
+		var out []byte
+		buf := make([]byte, 70)
+		for {
+			point()
+			n, err := rd.Read(buf)
+			out = append(out, buf[:n]...)
+			if err != nil {
+				return append(out, []byte("|"+err.Error())...)
+			}
+		}
+	}}
+}
+
 func c14Scenarios() []c14Scn {
 	t := c14Text
 	small := xz.WriterConfig{DictCap: 4096, BlockSize: 100}
@@ -266,6 +293,8 @@ func c14Scenarios() []c14Scn {
 		// readers decoding uncompressed chunks (bulk copies through staging buffers)
 		{"xzR(raw chunks)|lzma2R(raw chunks)", []c14Body{c14XZReader(mustLibXZ(XZCfg{DictCap: 4096, Check: 1, BlockSize: 100}, randBytes(84, 180))), c14LZMA2Reader(mustLibLZMA2(L2Cfg{DictCap: 4096}, randBytes(85, 160), []L2Step{{"w", 70}, {"f", 0}}))}},
 		{"lzmaW(size, early Close, continued)|lzmaW (bufio)", []c14Body{c14LZMAWriterEarlyClose(lzma.WriterConfig{DictCap: 4096}, t[:80]), c14LZMAWriter(lzma.WriterConfig{DictCap: 4096}, t[10:70], false)}},
+		// two classic readers whose headers differ in every field (properties, dictionary size, size)
+		{"lzmaR|lzmaR different headers", []c14Body{c14LZMAReader(mustLibLZMA(LZCfg{DictCap: 4096}, t[:60])), c14LZMAReader(mustLibLZMA(LZCfg{Props: true, LC: 0, LP: 2, PB: 1, DictCap: 1 << 16, SizeInHeader: true, Size: 50}, t[30:80]))}},
 		{"lzmaW|lzmaW same props (bufio)", []c14Body{c14LZMAWriter(lzma.WriterConfig{DictCap: 4096}, t[:90], false), c14LZMAWriter(lzma.WriterConfig{DictCap: 4096}, t[10:100], false)}},
 	}
 }
